@@ -19,7 +19,7 @@ ASSUME = ['importlib / sys.modules are modelled as an environment: module name -
 RULE = ('cases = PELs with UD / ED / SRC sections over creators x components x subtypes x versions, fixture parser modules of every behaviour, '
         'plugins on and off; m2c00 requests over subtypes 72/73/84/other x versions 1/2/other x payloads; non-trivial = a parser module '
         'is consulted; distinct by (environment, bytes)')
-UD_FIX = {'x1111': ('echo',), 'x2222': ('raises', 'boom'), 'x3333': ('none',), 'y0001': ('echo',), 'o1234': ('echo',)}
+UD_FIX = {'x1111': ('echo',), 'x2222': ('raises', 'boom'), 'x3333': ('none',), 'x8888': ('import_raises', 'load failure'), 'x0100': ('echo',), 'o0a00': ('echo',), 'y0a00': ('none',), 'y0001': ('echo',), 'o1234': ('echo',)}
 SRC_FIX = {'xsrc': ('echo',), 'ysrc': ('raises',), 'zsrc': ('text', 'null'), 'wsrc': ('text', ''), 'o8d00': ('echo',), 'oab00': ('raises',), 'bsrc': ('echo',)}
 CO_FIX = {'x': ('table', {'PROC0001': ['line one', 'line "two"'], 'PROC0002': []}), 'y': ('raises',)}
 
@@ -67,7 +67,7 @@ def run(tier, seed):
                                         c['fru']['pn'] = rng.choice([b'PROC0001', b'PROC0002', b'PROC0003', b'BMC0001\0'])
                         else:
                             sec = {'kind': k, 'hdr': apel.gen_hdr(rng), 'payload': apel.gen_payload(rng)[:300]}
-                            sec['hdr']['comp'] = rng.choice([0x1111, 0x2222, 0x3333, 0x0001, 0x1234, 0x2000, 0x4444])
+                            sec['hdr']['comp'] = rng.choice([0x1111, 0x2222, 0x3333, 0x0001, 0x1234, 0x2000, 0x4444, 0x8888, 0x0100, 0x0A00])
                             if k == 'ed':
                                 sec.update(creator=ord(rng.choice('xyOZ')), resv1=0, resv2=0)
                         secs.append(sec)
